@@ -128,6 +128,7 @@ structure Tx where
   resContentType : Option Bytes := none
   resContentEncoding : Nat := 0
   resContentEncodingProcessing : Nat := 0
+  reqContentEncoding : Nat := 0          -- tx->request_content_encoding (0 unknown, 1 none, 2 gzip, 3 deflate, 4 lzma)
   seen100 : Nat := 0
   resHeaderRepetitions : Nat := 0
   resIgnoredLines : Nat := 0
@@ -197,6 +198,7 @@ structure Conn where
   reqDecompressor : Bool := false
   outDecompressor : Bool := false
   outDecs : List Dec := []               -- connp->out_decompressor chain (head first)
+  inDecs : List Dec := []                -- connp->req_decompressor (a single layer)
   zoracle : List ZRes := []              -- results of the inflate() calls still to come in this data call
   zused : Bool := false                  -- an oracle was supplied for this data call
   bombLimit : Nat := 1048576             -- cfg->compression_bomb_limit (copied at creation)
